@@ -670,6 +670,14 @@ namespace xtl
         swap(m_flag, other.m_flag);
     }
 
+    // Found by ADL: the generic std::swap would keep a second handle on the
+    // referents of lhs as its temporary when a closure or flag is a proxy.
+    template <class CT, class CB>
+    inline void swap(xoptional<CT, CB>& lhs, xoptional<CT, CB>& rhs)
+    {
+        lhs.swap(rhs);
+    }
+
     // Comparison
     template <class CT, class CB>
     template <class CTO, class CBO>
